@@ -1516,3 +1516,54 @@ m("C19", "refactor-strict-local", C,
                 raise
 
             p = pickle.dumps(exc, -1)  # deferred''', expect="silent")
+
+# ---- C20 -------------------------------------------------------------------
+PG = "program.py"
+m("C20", "text-token-classified", PG,
+  '''        if mode == "text":
+            # In text mode, there is no markup: every token is character
+            # data, even if it happens to start with "<".
+            parser = (("text", (token, )) for token in tokens)
+        else:
+            parser = ElementParser(
+                tokens, self.DEFAULT_NAMESPACES, self.restricted_namespace
+            )''',
+  '''        parser = ElementParser(
+            tokens, self.DEFAULT_NAMESPACES, self.restricted_namespace
+        )''')
+m("C20", "text-mode-escapes", ZT,
+  '''            escape=True if self.mode == "xml" else False,''',
+  '''            escape=True,''')
+m("C20", "text-skips-empty-lines", PG,
+  '''            parser = (("text", (token, )) for token in tokens)''',
+  '''            parser = (("text", (token, )) for token in tokens if token.strip())''')
+m("C20", "text-file-returns-str", ZT,
+  "        return result.encode(self.encoding or 'utf-8')",
+  "        return result")
+m("C20", "text-file-always-utf8", ZT,
+  "        return result.encode(self.encoding or 'utf-8')",
+  "        return result.encode('utf-8')")
+m("C20", "visit-text-always-escapes", ZP,
+  '''            char_escape = ('&', '<', '>') if self.escape else ()
+            expression = nodes.Substitution(node, char_escape)
+            return nodes.Interpolation(expression, True, translation)''',
+  '''            char_escape = ('&', '<', '>')
+            expression = nodes.Substitution(node, char_escape)
+            return nodes.Interpolation(expression, True, translation)''')
+m("C20", "text-class-xml-mode", ZT,
+  '''    but uses the expression engine to substitute variables.
+    """
+
+    mode = "text"''',
+  '''    but uses the expression engine to substitute variables.
+    """
+
+    mode = "xml"''')
+m("C20", "plain-text-strips", ZP,
+  "        node = node.replace('$$', '$')\n\n        if not translation:",
+  "        node = node.replace('$$', '$').strip()\n\n        if not translation:")
+m("C20", "false-option-ignored", ZP,
+  "            if value is not None:\n                setattr(self, attribute, value)",
+  "            if value:\n                setattr(self, attribute, value)")
+m("C20", "refactor-text-branch", PG,
+  '''        if mode == "text":''', '''        if "text" == mode:''', expect="silent")
